@@ -319,7 +319,9 @@ struct Harness
         case OP_FIND: return "search-present@rank" + std::to_string(o.a);
         case OP_MISS: return "search-absent@gap" + std::to_string(o.a);
         case OP_ITER: return "iterate";
-        case OP_TEAR: return "tear-interrupted-after" + std::to_string(o.a) + (o.b ? "-restart" : "-continue");
+        case OP_TEAR:
+            if (o.b == 4) { return "tear-starting-at-LRN-position" + std::to_string(o.a); }
+            return "tear-interrupted-after" + std::to_string(o.a) + (o.b ? "-restart" : "-continue");
         }
         return "?";
     }
@@ -601,6 +603,47 @@ struct Harness
                 if (!err.empty()) { out.viol(op, std::string(TNAME "|tear|") + cls, err); continue; }
                 out.succ(op, "", "tear", restart ? "interrupted-restarted" : (k == n ? "uninterrupted" : "interrupted-continued"));
             }
+        }
+        // explicit starting node ("input starting node or, if null, root node"): from every node the tear-down
+        // must still hand out every element once, children before parents, and leave the tree empty
+        for (size_t j = 0; j < n; ++j)
+        {
+            xs::Op op{OP_TEAR, (long)j, 4, 0};
+            if (!out.enter(op)) { continue; }
+            Live L;
+            make(L, key);
+            std::vector<tnode *> ref;
+            ref_trav(L.root.node, 4, ref);
+            std::map<tnode *, std::pair<tnode *, tnode *>> kids;
+            for (tnode *r : ref) { kids[r] = {r->left, r->right}; }
+            std::set<tnode *> gone;
+            std::string err, cls;
+            tnode *next = ref[j];
+            for (size_t guard = 0; guard < n + 2; ++guard)
+            {
+                tnode *cur = T(tear)(&L.root, &next);
+                if (!cur) { break; }
+                if (!kids.count(cur)) { cls = "foreign"; err = "tear-down from an explicit starting node handed out something that is not an element"; break; }
+                if (gone.count(cur)) { cls = "twice"; err = "tear-down from an explicit starting node handed out an element a second time"; break; }
+                auto &kd = kids[cur];
+                if ((kd.first && !gone.count(kd.first)) || (kd.second && !gone.count(kd.second)))
+                {
+                    cls = "order";
+                    err = "tear-down from an explicit starting node handed out an element before one of its children";
+                    break;
+                }
+                gone.insert(cur);
+                poison((Elem *)cur);
+            }
+            if (err.empty() && gone.size() != n) { cls = "short"; err = "tear-down from an explicit starting node handed out " + std::to_string(gone.size()) + " of " + std::to_string(n) + " elements"; }
+            if (err.empty() && L.root.node != nullptr) { cls = "not-empty"; err = "tear-down from an explicit starting node left a non-empty tree"; }
+#if HAVE_ASAN
+            __asan_unpoison_memory_region(L.pool, sizeof L.pool);
+#endif
+            ++tear_runs;
+            out.leave();
+            if (!err.empty()) { out.viol(op, std::string(TNAME "|tear-from-node|") + cls, err); continue; }
+            out.succ(op, "", "tear", "explicit-start");
         }
         // the loop macros, uninterrupted
         for (int form = 0; form < 2; ++form)
